@@ -1,7 +1,7 @@
 #!/bin/sh
 # tools/coverage_report.sh — measurement only: which lines / branches of /repo/src/eascheduler do the implementation-side
-# harness subprocesses of the 20 quick checks exercise?  (sitecustomize.py starts coverage in every harness subprocess
-# while the marker file .scratch/cov/ENABLED exists.)  Evidence and replays of these runs go to a scratch directory.
+# harness subprocesses of the 20 quick checks exercise?  (a sitecustomize.py written for the duration of this script starts coverage in
+# every harness subprocess.)  Evidence and replays of these runs go to a scratch directory.
 cd /verif || exit 2
 rm -rf .scratch/cov/data; mkdir -p .scratch/cov/data .scratch/cov/out
 cat > .scratch/cov/coveragerc <<EOT
@@ -12,6 +12,19 @@ source = /repo/src/eascheduler
 data_file = /verif/.scratch/cov/data/.coverage
 disable_warnings = no-data-collected,module-not-measured,module-not-imported
 EOT
+# the hook exists only while this script runs (a leftover marker once slowed every check down by an order of magnitude)
+cat > sitecustomize.py <<'EOT'
+import os
+_HERE = os.path.dirname(os.path.abspath(__file__))
+if os.path.exists(os.path.join(_HERE, '.scratch', 'cov', 'ENABLED')):
+    try:
+        os.environ['COVERAGE_PROCESS_START'] = os.path.join(_HERE, '.scratch', 'cov', 'coveragerc')
+        import coverage
+        coverage.process_startup()
+    except Exception:       # noqa: BLE001
+        pass
+EOT
+trap 'rm -f /verif/sitecustomize.py /verif/.scratch/cov/ENABLED' EXIT INT TERM
 touch .scratch/cov/ENABLED
 for c in C01 C02 C03 C04 C05 C06 C07 C08 C09 C10 C11 C12 C13 C14 C15 C16 C17 C18 C19 C20; do
   VERIF_OUT=/verif/.scratch/cov/out ./check $c 2>&1 | tail -1 | cut -c1-160
